@@ -77,7 +77,7 @@ def main(argv=None):
     try:
         import resource
         lim = int(os.environ.get('VERIF_AS_LIMIT_GB', '2')) * 2 ** 30
-        resource.setrlimit(resource.RLIMIT_AS, (lim, lim))
+        resource.setrlimit(resource.RLIMIT_AS, (lim, resource.getrlimit(resource.RLIMIT_AS)[1]))   # soft limit only
     except Exception:
         pass
     engine.setup_lentil()
